@@ -135,8 +135,10 @@ type outcome struct {
 	GenErr    string   // generator failure (class + message)
 	Diffs     []string // differences between the first process' tree and a later one
 	SetDiff   bool     // the set of generated files differs (not only contents)
-	BuildErr  string
+	BuildErr  string   // first compile failure among the processes' outputs (every distinct tree is built)
+	BuildProc int      // the process whose output it is
 	VetErr    string
+	Built     int // distinct output trees built and vetted
 	Files     int
 	Packages  int
 	Compared  int // tree comparisons made
@@ -305,24 +307,67 @@ func compileErrClass(out, modDir string) string {
 	return strings.Join(lines, " | ")
 }
 
-// runManifest: N fresh generator processes, byte comparison, build, vet.
+// treeDigest names an output tree: equal digests mean byte-identical trees.
+func treeDigest(t map[string]string) string {
+	h := sha256.New()
+	for _, k := range sortedKeys(t) {
+		fmt.Fprintf(h, "%s\x00%s\n", k, t[k])
+	}
+	return hex.EncodeToString(h.Sum(nil))
+}
+
+// buildTree builds and vets the generated packages below mod/gen (mod is a scratch module replacing the
+// repository module).
+func (e *env) buildTree(mod string, manifest []byte) (buildErr, vetErr string, packages int) {
+	if err := writeCustomTyperefs(filepath.Join(mod, "gen"), manifest); err != nil {
+		return "custom typeref support files: " + err.Error(), "", 0
+	}
+	dirs, err := goPackageDirs(filepath.Join(mod, "gen"))
+	if err != nil || len(dirs) == 0 {
+		return fmt.Sprintf("no generated packages (%v)", err), "", 0
+	}
+	var pkgs []string
+	for _, d := range dirs {
+		rel, _ := filepath.Rel(mod, d)
+		pkgs = append(pkgs, "./"+rel)
+	}
+	if txt, err := e.run(mod, 10*time.Minute, nil, "go", append([]string{"build"}, pkgs...)...); err != nil {
+		buildErr = compileErrClass(txt, mod)
+		if buildErr == "" {
+			buildErr = err.Error()
+		}
+		return buildErr, "", len(dirs)
+	}
+	if txt, err := e.run(mod, 10*time.Minute, nil, "go", append([]string{"vet"}, pkgs...)...); err != nil {
+		vetErr = compileErrClass(txt, mod)
+		if vetErr == "" {
+			vetErr = err.Error()
+		}
+	}
+	return "", vetErr, len(dirs)
+}
+
+// runManifest: N fresh generator processes, each writing into a scratch module of its own; byte comparison
+// of every later tree with the first; then EVERY process' output is built and vetted (byte-identical trees
+// once: the compiler's verdict is a function of the bytes). A generator whose output depends on the process
+// may emit a tree that compiles in one process and one that does not in the next: looking at the first
+// process alone, or stopping at the first difference, would not see that.
 func (e *env) runManifest(id string, manifest []byte) *outcome {
 	o := &outcome{}
 	base := filepath.Join(e.scratch, "m-"+id)
-	mod := filepath.Join(base, "mod")
-	must(os.MkdirAll(mod, 0o755))
+	must(os.MkdirAll(base, 0o755))
 	defer os.RemoveAll(base)
 	mpath := filepath.Join(base, "manifest.json")
 	must(os.WriteFile(mpath, manifest, 0o644))
-	must(os.WriteFile(filepath.Join(mod, "go.mod"), []byte(goModText("c12.test", e.repoMod)), 0o644))
-	must(os.WriteFile(filepath.Join(mod, "go.sum"), e.goSum, 0o644))
 
+	var mods, digests []string
 	var first map[string]string
 	for i := 0; i < e.runs; i++ {
+		mod := filepath.Join(base, fmt.Sprintf("p%d", i))
+		must(os.MkdirAll(mod, 0o755))
+		must(os.WriteFile(filepath.Join(mod, "go.mod"), []byte(goModText("c12.test", e.repoMod)), 0o644))
+		must(os.WriteFile(filepath.Join(mod, "go.sum"), e.goSum, 0o644))
 		out := filepath.Join(mod, "gen")
-		if i > 0 {
-			out = filepath.Join(base, fmt.Sprintf("r%d", i), "gen")
-		}
 		t0 := time.Now()
 		txt, err := e.run(base, 90*time.Second, procEnvs[i%len(procEnvs)], e.genBin, out, mpath, e.dep)
 		o.GenMillis += time.Since(t0).Milliseconds()
@@ -335,6 +380,7 @@ func (e *env) runManifest(id string, manifest []byte) *outcome {
 			o.GenErr = "cannot read the output tree: " + err.Error()
 			return o
 		}
+		mods, digests = append(mods, mod), append(digests, treeDigest(tree))
 		if i == 0 {
 			first = tree
 			o.Files = len(tree)
@@ -346,35 +392,26 @@ func (e *env) runManifest(id string, manifest []byte) *outcome {
 			o.Diffs, o.SetDiff = d, sd
 		}
 	}
-	if len(o.Diffs) > 0 {
-		return o
-	}
-	if err := writeCustomTyperefs(filepath.Join(mod, "gen"), manifest); err != nil {
-		o.BuildErr = "custom typeref support files: " + err.Error()
-		return o
-	}
-	dirs, err := goPackageDirs(filepath.Join(mod, "gen"))
-	if err != nil || len(dirs) == 0 {
-		o.BuildErr = fmt.Sprintf("no generated packages (%v)", err)
-		return o
-	}
-	o.Packages = len(dirs)
-	var pkgs []string
-	for _, d := range dirs {
-		rel, _ := filepath.Rel(mod, d)
-		pkgs = append(pkgs, "./"+rel)
-	}
-	if txt, err := e.run(mod, 10*time.Minute, nil, "go", append([]string{"build"}, pkgs...)...); err != nil {
-		o.BuildErr = compileErrClass(txt, mod)
-		if o.BuildErr == "" {
-			o.BuildErr = err.Error()
+	built := map[string]bool{}
+	for i, mod := range mods {
+		if built[digests[i]] {
+			continue
 		}
-		return o
-	}
-	if txt, err := e.run(mod, 10*time.Minute, nil, "go", append([]string{"vet"}, pkgs...)...); err != nil {
-		o.VetErr = compileErrClass(txt, mod)
-		if o.VetErr == "" {
-			o.VetErr = err.Error()
+		built[digests[i]] = true
+		o.Built++
+		be, ve, n := e.buildTree(mod, manifest)
+		if i == 0 {
+			o.Packages = n
+		}
+		which := ""
+		if len(built) > 1 || len(o.Diffs) > 0 {
+			which = fmt.Sprintf("[output of process %d of %d] ", i, e.runs)
+		}
+		if be != "" && o.BuildErr == "" {
+			o.BuildErr, o.BuildProc = which+be, i
+		}
+		if ve != "" && o.VetErr == "" {
+			o.VetErr = which + ve
 		}
 	}
 	return o
